@@ -12,12 +12,18 @@
      lines   ax.lines in order: [ls |-> linestyle, mk |-> marker, pts |-> 2 * xydata]
      quiv    the Quiver collections in order: [X, Y, U, V] (2 * data units)
      asc     [se, ss, res, rows, own_res, own]: to_ascii(se, ss) and the maze's own as_ascii(se, ss)
+     argmod  names of the caller's own argument objects (connection list, cell values, path coordinates, ...)
+             whose contents differ (deep comparison) after plot() / to_ascii() from a snapshot taken before the call
    Layer P (the statement): plot_raises, image_size, cell_blocks, cell_values, connected_strip_not_passage,
      unconnected_strip_not_wall, image_placement, path_polylines, endpoint_markers, marker_off_listed_cells,
      ascii_export (to_ascii with its default flags).
    Layer M: M:image_model, M:passage_value_of_unit_cell (Plot.tla), M:marked_coords, M:marker_count,
      M:ascii_export_flags (to_ascii(se, ss) = as_ascii(se, ss) for the non-default flag pairs),
-     M:input_malformed (driver produced a case outside the scope).
+     M:argument_modified (the statement says nothing about the arguments; its stated consequences - a wrong
+     export / second plot - are Layer P through the ordinary clauses), M:input_malformed (driver produced a case
+     outside the scope).  A predicted path may be EMPTY (it lists no cell: nothing is drawn for it).
+   Shapes with a side of 1 (1x1, 1xN, Nx1) are outside the quantifier ("grid sizes 2..8"): every clause c of such
+     a record is reported as the Layer-M clause "M:outside_grid_sizes:" \o c.
    X:rle_* = the two encodings of one image disagree / malformed encoding: harness machinery, not a verdict. *)
 EXTENDS Plot, Json, IOUtils, SequencesExt
 Log == ndJsonDeserialize(IOEnv.VERIF_LOG)
@@ -41,7 +47,7 @@ InScope(r) ==
   /\ r.hasnv => /\ Len(r.nv) = m.R
                 /\ \A i \in 1..m.R : Len(r.nv[i]) = m.C /\ \A j \in 1..m.C : r.nv[i][j] \notin {NaNV, InexactV}
   /\ r.tpset => Len(r.tp) >= 1 /\ \A i \in 1..Len(r.tp) : InGridCell(m.R, m.C, r.tp[i])
-  /\ \A n \in 1..Len(r.preds) : Len(r.preds[n]) >= 1 /\ \A i \in 1..Len(r.preds[n]) : InGridCell(m.R, m.C, r.preds[n][i])
+  /\ \A n \in 1..Len(r.preds) : \A i \in 1..Len(r.preds[n]) : InGridCell(m.R, m.C, r.preds[n][i])
   /\ \A i \in 1..Len(r.marks) : InGridCell(m.R, m.C, r.marks[i])
 
 (* ---------------- the image ---------------- *)
@@ -77,7 +83,8 @@ PathPart(r) ==
       \* a targeted maze is solved by the plot itself: any shortest path start -> end is the true path
       tdef == ~r.tpset /\ m.kind = KTargeted
       tdefLine == tdef /\ Cell(m.start) # Cell(m.end)
-      fixed == trueFixed \o r.preds
+      \* an empty predicted path lists no cell: no polyline, no endpoint, no marker
+      fixed == SelectSeq(trueFixed \o r.preds, LAMBDA p : Len(p) >= 1)
       E == SelectSeq([i \in 1..Len(fixed) |-> Poly(fixed[i])], LAMBDA p : Len(p) >= 2)
       segLines == SelectSeq(r.lines, LAMBDA a : a.ls # "None" /\ Len(a.pts) >= 2)
       arrows == SelectSeq(r.quiv, LAMBDA q : Len(q.X) >= 1)
@@ -120,12 +127,20 @@ AsciiPart(r) ==
   IN (IF same /\ (tdef => solved) THEN {} ELSE {"ascii_export"})
      \cup (IF sameFlags THEN {} ELSE {"M:ascii_export_flags"})
 
+StatedAndModel(r) ==
+  LET m == r.maze
+      unsolvable == m.kind = KTargeted /\ Dist(m.R, m.C, m.conn, Cell(m.start), Cell(m.end)) = Infinity
+  IN (IF r.res # "ok" THEN (IF unsolvable THEN {} ELSE {"plot_raises"})
+      ELSE ImagePart(r) \cup PathPart(r) \cup AsciiPart(r))
+     \cup (IF Len(r.argmod) > 0 THEN {"M:argument_modified"} ELSE {})
+\* a side of 1 is outside the quantifier of the statement: conformance only (X:* stays harness machinery)
+OutsideGridSizes(m) == m.R < 2 \/ m.C < 2
 Clauses(r) ==
   IF ~InScope(r) THEN {"M:input_malformed"}
-  ELSE LET m == r.maze
-           unsolvable == m.kind = KTargeted /\ Dist(m.R, m.C, m.conn, Cell(m.start), Cell(m.end)) = Infinity
-       IN IF r.res # "ok" THEN (IF unsolvable THEN {} ELSE {"plot_raises"})
-          ELSE ImagePart(r) \cup PathPart(r) \cup AsciiPart(r)
+  ELSE LET cs == StatedAndModel(r) IN
+       IF OutsideGridSizes(r.maze)
+         THEN {IF c \in {"X:rle_malformed", "X:rle_disagrees_with_raw"} THEN c ELSE "M:outside_grid_sizes:" \o c : c \in cs}
+         ELSE cs
 
 VARIABLES l, bad
 TInit == l = 1 /\ bad = {} /\ g = <<>> /\ img = <<>> /\ k = 0 /\ pc = "trace"
